@@ -15,6 +15,7 @@ import (
 	"github.com/whatap/golib/config"
 	"github.com/whatap/golib/lang/pack"
 	wnet "github.com/whatap/golib/net"
+	"github.com/whatap/golib/util/list"
 	"github.com/whatap/golib/util/queue"
 )
 
@@ -173,13 +174,15 @@ func newConf(vals map[string]int32) *config.MockConfig {
 	return m
 }
 
-// queueLen reads the queue length while holding the queue's own lock (its Size() is not
-// locked; the lock field is private).
+// queueLen reads the length of the queue's inner list while holding the queue's own lock
+// (both fields are private). It does not call RequestQueue.Size(): that method is unlocked in
+// some revisions (a data race for the monitor) and takes the same lock in others.
 func queueLen(q *queue.RequestQueue) int {
-	f := reflect.ValueOf(q).Elem().FieldByName("lock")
-	cond := *(**sync.Cond)(unsafe.Pointer(f.UnsafeAddr()))
+	v := reflect.ValueOf(q).Elem()
+	cond := *(**sync.Cond)(unsafe.Pointer(v.FieldByName("lock").UnsafeAddr()))
+	inner := (*list.LinkedList)(unsafe.Pointer(v.FieldByName("queue").UnsafeAddr()))
 	cond.L.Lock()
-	n := q.Size()
+	n := inner.Size()
 	cond.L.Unlock()
 	return n
 }
